@@ -199,7 +199,7 @@ func c13writeAbort(block bool, failNth int, twoAborts, ctxWriter bool) zzmc.Scen
 				if armedAtEnd {
 					fail += "DEADLINE-LEFT-ARMED "
 				}
-				if dead == "" {
+				if dead == "" && m.writeState.Load() == 0 {
 					if _, err := c2.WriteTo([]byte("probe"), dst); err != nil {
 						fail += "PROBE-WRITE-FAILED:" + err.Error() + " "
 					}
